@@ -8,7 +8,8 @@
      alias_bij d    : bij (aliases d)
      alias_nodes d  : every aliased id is positive and `is_node (gr d) id = true`. *)
 From Agdb Require Import Bytes DbValue Graph DbModel Search Queries Revisions
-  ImapProofs AliasProofs QStepProofs AliasQueryProofs.
+  ImapProofs AliasProofs QStepProofs AliasQueryProofs
+  DbInvProofs QueryInvProofs SearchLiveProofs HistoryInvProofs HistoryExamples.
 Open Scope Z_scope.
 
 (* ---- the map is a bijection at all times (IndexedMap level: every sequence of insert / remove_key) ---- *)
@@ -162,3 +163,49 @@ Example C10_fixed_witness :
   exec rv_fixed d2 (InsertAliases (Ids [QId (-3)]) [[x65]]) = (d2, QErr ENotAllowed).
 Proof. exact c10_fixed_witness. Qed.
 Print Assumptions C10_fixed_witness.
+
+(* ---- all histories -------------------------------------------------------------------------
+   FULL STATEMENT (property text): at all times — after every history of queries from the empty
+   database — the alias map is one-to-one and every aliased id is an existing node.
+
+   Inv d (theories/DbInvProofs.v) = graph well-formed (C08's wf) /\ alias_bij d /\ alias_nodes d /\
+   no element with two equal keys /\ indexes exact.  query_ok q = the insert lists of q have distinct
+   keys (C09's quantifier; irrelevant for aliases but part of the joint invariant).
+
+   PROVED: C10_step (every mutating query, WHATEVER ITS OUTCOME, maps an Inv state to an Inv state:
+   the partial state left by a failing query included), C10_transaction_partial (every state inside
+   a running transaction), C10_history_partial (every history from db_new in which no query fails).
+   MISSING for the full statement:
+     (1) `traversal_live rv_fixed` is a hypothesis: breadth/depth-first and path searches return only
+         existing elements (C14 / C17 territory; index searches and element scans are discharged).
+         It matters only for queries whose ids are given by such a search.
+     (2) the state after the ROLLBACK of a failing query (`exec` on QErr) is not covered: that needs
+         C13 (rollback restores the pre-transaction state). *)
+Theorem C10_step :
+  traversal_live rv_fixed ->
+  forall d q, query_ok q -> Inv d -> Inv (step_db (exec_mut_step rv_fixed d q)).
+Proof.
+  intros Ht d q. exact (exec_mut_step_Inv rv_fixed (search_live_of_traversal rv_fixed Ht) eq_refl d q).
+Qed.
+Print Assumptions C10_step.
+
+Theorem C10_transaction_partial :
+  traversal_live rv_fixed ->
+  forall d qs acc, Forall query_ok qs -> Inv d ->
+  let d1 := fst (fst (txn_run rv_fixed d qs acc)) in alias_bij d1 /\ alias_nodes d1.
+Proof.
+  intros Ht d qs acc Hq Hd. apply Inv_aliases. exact (transaction_state_Inv rv_fixed Ht eq_refl d qs acc Hq Hd).
+Qed.
+Print Assumptions C10_transaction_partial.
+
+Theorem C10_history_partial :
+  traversal_live rv_fixed ->
+  forall qs, Forall query_ok qs -> all_succeed rv_fixed db_new qs ->
+  alias_bij (exec_all rv_fixed db_new qs) /\ alias_nodes (exec_all rv_fixed db_new qs).
+Proof. intros Ht. exact (history_aliases rv_fixed Ht eq_refl). Qed.
+Print Assumptions C10_history_partial.
+
+Example C10_history_nonvacuous :
+  Forall query_ok (firstn 2 c10_history) /\ all_succeed rv_fixed db_new (firstn 2 c10_history).
+Proof. exact c10_history_ok. Qed.
+Print Assumptions C10_history_nonvacuous.
